@@ -273,6 +273,7 @@ class LoopSpec:
         self.modifies = list(modifies)
         self.types = dict(types or {})
         self.name = name
+        self.at_exit = None     # called on the normal-exit path, in the state the loop was left in
 
 
 class NS:
@@ -1477,6 +1478,8 @@ class Interp:
         else:
             CTX.assume(iv.t == z3.If(ze > zs, ze, zs))
             self._assume_inv(spec, scope, old, {})
+            if getattr(spec, "at_exit", None) is not None:
+                spec.at_exit(NS(scope, old, {"exit_index": iv}))
             # after the loop the variable holds the last index (if any iteration ran)
             scope.vars[var] = mk_int(iv.t - 1)
 
@@ -1506,6 +1509,8 @@ class Interp:
         else:
             CTX.assume(k.t == _zint(n))
             self._assume_inv(spec, scope, old, {"idx": k})
+            if getattr(spec, "at_exit", None) is not None:
+                spec.at_exit(NS(scope, old, {"idx": k, "exit_index": k}))
 
     def _sym_ghost_loop(self, s, scope, seq, spec, key):
         """for x in <ghost sequence of symbolic length>: like a list loop, element idx is seq.pv_getitem(idx)"""
@@ -1533,6 +1538,8 @@ class Interp:
         else:
             CTX.assume(k.t == _zint(n))
             self._assume_inv(spec, scope, old, {"idx": k})
+            if getattr(spec, "at_exit", None) is not None:
+                spec.at_exit(NS(scope, old, {"idx": k, "exit_index": k}))
 
     def _opaque_loop(self, s, scope, it, spec, key):
         """iteration over something of unknown length and content: the body is executed once from
@@ -1622,6 +1629,8 @@ class Interp:
         else:
             if self.truthy(c):
                 raise PathEnd("guard true on exit path")
+            if getattr(spec, "at_exit", None) is not None:
+                spec.at_exit(NS(scope, old, {}))
 
     # ------------------------------------------------------------------ expressions
     def eval(self, e, scope):
